@@ -20,10 +20,10 @@ def bounds(tier):
             'timing_variants': sorted(VARIANTS), 'stamps': 3}
 
 
-def mk(variants, started=None, ended=None, edstart='present', pre_op=False, T=60, tag='', dmax=100000):
+def mk(variants, started=None, ended=None, edstart='present', pre_op=False, T=60, tag='', dmax=100000, resend=None):
     N = len(variants)
     P = {'N': N, 'variants': list(variants), 'started': started, 'ended': ended, 'edstart': edstart,
-         'pre_op': pre_op}
+         'pre_op': pre_op, 'resend': resend}
     sym = [('s%d' % i, 'str') for i in range(N)]
     strs = [n for n, _ in sym]
     pre = str_pre(strs) + distinct(strs)
@@ -38,6 +38,10 @@ def mk(variants, started=None, ended=None, edstart='present', pre_op=False, T=60
         cid += '/started-' + ''.join('-' if x is None else str(x) for x in started)
     if ended and any(x is not None for x in ended):
         cid += '/ended-' + ''.join('-' if x is None else str(x) for x in ended)
+    if resend is not None:
+        sym.append(('nd', 'int'))
+        pre.append('0 <= nd <= %d' % dmax)
+        cid += '/then-resend-%d' % resend
     if pre_op:
         cid += '/after-swap'
     if dmax != 100000:
@@ -81,6 +85,13 @@ def cells(tier):
     # after a reordering merge the relations hold again
     out.append(mk(['SD', 'TT+MT', 'SD+TT+MT'], pre_op=True, T=T, dmax=100000 if tier == 'thorough' else 10000))
     out.append(mk(['SD', 'MT'], pre_op=True, started=[1, None], T=T))
+    # read, re-send a story with a different duration (same ID and position), read again
+    dm = 100000 if tier == 'thorough' else 10000
+    out.append(mk(['SD', 'TT+MT', 'SD'], resend=0, T=T, dmax=dm))
+    out.append(mk(['TT', 'SD', 'MT'], resend=1, T=T, dmax=dm))
+    out.append(mk(['SD', 'SD'], resend=1, T=T, dmax=dm))
+    out.append(mk(['SD', 'none', 'SD'], resend=1, T=T, dmax=dm))
+    out.append(mk(['MT', 'SD'], resend=0, started=[None, 1], edstart='absent', T=T))
     if tier == 'thorough':
         for quad in (('SD', 'TT', 'MT', 'TT+MT'), ('SD+TT+MT', 'SD', 'SD', 'TT'), ('SD', 'SD', 'none', 'SD')):
             out.append(mk(list(quad), T=T))
